@@ -79,6 +79,7 @@ var ops = []opInfo{
 	{"postThing", "POST", "/things/{id}", true, "optional-K1"},
 	{"putThing", "PUT", "/things/{id}", true, "K2"},
 	{"open", "GET", "/open/{id}", false, "none"},
+	{"bulk", "POST", "/bulk", true, "none"}, // parameter-less route, body admitted through a wildcard entry
 }
 
 func buildDoc() (*loads.Document, error) {
@@ -101,6 +102,8 @@ func buildDoc() (*loads.Document, error) {
 				Security: sec(map[string][]string{"K2": {"admin"}})},
 			{Method: "GET", Path: "/open/{id}", ID: "open",
 				Params: []simapi.Param{{Name: "id", In: "path", Type: "string"}, {Name: "q", In: "query", Type: "string"}, hdr}},
+			{Method: "POST", Path: "/bulk", ID: "bulk", Consumes: []string{"application/*"}, Produces: []string{"application/json", "text/plain; charset=utf-8"},
+				Params: []simapi.Param{{Name: "q", In: "query", Type: "string"}, hdr, {Name: "payload", In: "body", Required: true}}},
 		}}
 	return api.Doc()
 }
@@ -191,7 +194,7 @@ func buildServer(doc *loads.Document, n int, point func(), plans []reqPlan, salt
 	for _, o := range ops {
 		o := o
 		u.RegisterOperation(o.method, o.tmpl, &simapi.Handler{W: world, Op: o.id, OnCall: point, Result: func(i int, bound map[string]any) (any, error) {
-			return map[string]any{"req": i, "op": o.id, "id": fmt.Sprint(bound["id"]), "q": fmt.Sprint(bound["q"])}, nil
+			return map[string]any{"req": i, "op": o.id, "id": fmt.Sprint(bound["id"]), "q": fmt.Sprint(bound["q"])}, nil // (id is <nil> for the parameter-less route)
 		}})
 	}
 	ctx := middleware.NewContext(doc, u, nil)
@@ -279,7 +282,7 @@ func ownCheck(p *reqPlan, s *simapi.Obs, status int, respBody string) string {
 		if s.HandlerOp != ops[p.op].id {
 			bad = append(bad, fmt.Sprintf("handler of %s ran for a %s request", s.HandlerOp, ops[p.op].id))
 		}
-		if got := fmt.Sprint(s.Bound["id"]); got != p.id {
+		if got := fmt.Sprint(s.Bound["id"]); got != p.id && strings.Contains(ops[p.op].tmpl, "{id}") {
 			bad = append(bad, fmt.Sprintf("path value id=%q, own is %q", got, p.id))
 		}
 		if got := fmt.Sprint(s.Bound["q"]); got != p.q {
